@@ -1,6 +1,6 @@
 (* C14 — OCSP cache soundness: right certificate, bounded lifetime.  Property theorems only.
    Time is an integer (nanoseconds); the clock-skew allowance comes from the source. *)
-From Verif Require Import Base Ocsp OcspProofs.
+From Verif Require Import Base Ocsp OcspProofs OcspPrune.
 From Verif.gen Require GenFacts.
 
 (* the key is (issuer, serial): a query about another certificate neither reads nor writes
@@ -45,3 +45,23 @@ Theorem C14_failed_not_cached : forall cfg c k now nu l,
   first_answer (filter_http l) = None -> snd (ocsp_check cfg c k now nu l) = c.
 Proof. exact failed_query_not_cached. Qed.
 Print Assumptions C14_zero_caches_nothing.
+
+(* The cache as the code has it (no library timers): a map in which an addition replaces the item of its key, an
+   add counter (uint64, wrapping), and every interval-th addition deleting the expired items.  For EVERY history
+   of checks at non-decreasing times, every prune interval and every counter state, its verdicts are those of the
+   simple cache above (a list that only grows): replacement and pruning are invisible, so every theorem of this
+   file — and of C02/C05 — about `ocsp_check` holds for the pruned cache; in particular pruning can neither
+   lengthen a lifetime nor bring back an expired answer. *)
+Theorem C14_pruned_cache_refines : forall interval cfg h T c1 adds c2,
+  sim T c1 c2 -> monotone_from T h -> run_p interval cfg (c1, adds) h = run_simple cfg c2 h.
+Proof. exact pruned_cache_refines. Qed.
+Print Assumptions C14_pruned_cache_refines.
+Theorem C14_pruned_cache_from_empty : forall interval cfg h T adds,
+  monotone_from T h -> run_p interval cfg ([], adds) h = run_simple cfg [] h.
+Proof. exact pruned_cache_from_empty. Qed.
+Print Assumptions C14_pruned_cache_from_empty.
+(* pruning at `now` is invisible to every lookup at `now` or later, and the map never holds two items for a key *)
+Theorem C14_prune_invisible : forall c now k t,
+  uniq c -> (now <= t)%Z -> cache_get (cache_prune c now) k t = cache_get c k t.
+Proof. exact get_prune. Qed.
+Print Assumptions C14_prune_invisible.
